@@ -357,7 +357,12 @@ func runGraph(sc *gScen) *gRun {
 	res.appRow = res.rowOf[framework_helper.GetComponentName(a)]
 	// boot list: priority-ordered universe post-processors (T14) first, then the observing processor
 	for i, n := range res.nodesObj {
-		if isUnwired(n) {
+		if _, ordered := n.(*T23); isUnwired(n) && !ordered {
+			res.boot = append(res.boot, i)
+		}
+	}
+	for i, n := range res.nodesObj { // the ordered (3) one comes after the priority class, before the observing processor (9)
+		if _, ordered := n.(*T23); ordered {
 			res.boot = append(res.boot, i)
 		}
 	}
